@@ -19,6 +19,9 @@ REQUIRE = {'fault_reached_by_start': 300, 'fault_reached_by_dispatch': 300, 'non
 ASSUME = ['exactly one fault per chart; handlers returning None for exit / super-search signals are outside the statement and not injected']
 
 
+EXIT_FAULTS = True
+
+
 def relation(spec, f, t):
   if t == f:
     return 'self'
@@ -46,6 +49,12 @@ def run_case(ctx, n):
         del mspec['react'][key]
     mspec['clauses'][f] = [False, False, False]
     mspec['init'][f] = None
+    spec = copy.deepcopy(mspec)
+  elif r0 < 0.36 and EXIT_FAULTS:
+    # a handler that returns no status for EXIT only (its exit clause forgets the return)
+    fault = {'kind': 'none_on_exit', 'state': f}
+    mspec = copy.deepcopy(spec)
+    mspec['clauses'][f][1] = True
     spec = copy.deepcopy(mspec)
   elif r0 < 0.45:
     fault = {'kind': 'none_on_user', 'state': f}
@@ -134,6 +143,12 @@ def run_case(ctx, n):
         where = 'dispatch topology %s leading into the status-less state' % cg.topo_class(mspec, S, T)
       elif kind == 'tran' and (f in cg.anc(mspec, T) or f in cg.anc(mspec, prev)):
         lenient = True       # only asked for its parent during the search: not constrained by the statement
+    elif fault['kind'] == 'none_on_exit':
+      reached = ('exit', names[f]) in exp_log
+      if reached:
+        ctx.count('statusless_exit_reached')
+        exited = [r[1] for r in exp_log if r[0] == 'exit']
+        where = 'dispatch topology %s, %s' % (cg.topo_class(mspec, S, T), 'exit of the source state' if names[S] == names[f] else ('exit below the source state' if exited.index(names[f]) < (exited.index(names[S]) if names[S] in exited else len(exited)) else 'exit above the source state'))
     else:
       reached = ('offer', names[f], sn) in exp_log
       if reached:
